@@ -1336,6 +1336,34 @@ func (t *FnTrans) Translate() {
 		t.vals[p] = v
 		t.noteRef(v)
 		t.params[p.Name()] = v
+		if t.con != nil && v.K == VScalar {
+			for _, pp := range t.con.PrivateParams {
+				if pp == p.Name() {
+					if why, ok := t.checkPrivateParam(p); ok {
+						t.privateRefs[v.S] = true
+						t.note("parameter %s: its target is written only by this function while it runs (%s)", p.Name(), why)
+					} else {
+						t.staleClauses = append(t.staleClauses, fmt.Sprintf("privateparam %s: %s", p.Name(), why))
+					}
+				}
+			}
+		}
+	}
+	// two pointer parameters whose pointee types are different non-composite
+	// types (no struct, no array: no first-field / first-element aliasing)
+	// cannot hold the same address in a Go program without unsafe
+	for i, p := range fn.Params {
+		pi, ok := p.Type().Underlying().(*types.Pointer)
+		if !ok || !isCellType(pi.Elem()) || t.vals[p].K != VScalar {
+			continue
+		}
+		for _, q := range fn.Params[i+1:] {
+			qi, ok := q.Type().Underlying().(*types.Pointer)
+			if !ok || !isCellType(qi.Elem()) || t.vals[q].K != VScalar || types.Identical(pi.Elem(), qi.Elem()) {
+				continue
+			}
+			t.assume("true", or(eq(t.vals[p].S, "0"), not(eq(t.vals[p].S, t.vals[q].S))), "pointers to variables of different non-composite types are distinct")
+		}
 	}
 	for _, fv := range fn.FreeVars {
 		v := t.havocVal(fv.Type(), "fv."+fv.Name())
@@ -1766,6 +1794,12 @@ func (t *FnTrans) escapeAnalysis() {
 					mark(a)
 				}
 			case *ssa.MakeClosure:
+				if t.closureRunsInlineOnly(x) {
+					// the closure is deferred and translated inline at every
+					// exit it runs at; its body only loads from and stores to
+					// the captured cells, so capturing exposes them to nobody
+					continue
+				}
 				for _, bnd := range x.Bindings {
 					mark(bnd)
 				}
@@ -1976,4 +2010,204 @@ func (t *FnTrans) modifiesComps(callee *ssa.Function, con *Contract) ([]string, 
 		}
 	}
 	return res, true
+}
+
+// checkPrivateParam decides the `privateparam` clause for pointer parameter p
+// of an unexported function: every static call of the function in its package
+// passes, for p, the address of a local variable (an *ssa.Alloc) whose only
+// other uses are loads and stores — so no callee of this function can hold
+// another reference to the cell.  A call through a function value cannot
+// exist for a method/function that is never used as a value; uses as a value
+// fail the check.
+func (t *FnTrans) checkPrivateParam(p *ssa.Parameter) (string, bool) {
+	fn := t.fn
+	if fn.Object() == nil || fn.Object().Exported() {
+		return "exported function: callers outside the package are not visible", false
+	}
+	idx := -1
+	for i, q := range fn.Params {
+		if q == p {
+			idx = i
+		}
+	}
+	if idx < 0 {
+		return "no such parameter", false
+	}
+	pkg := fn.Pkg
+	if pkg == nil {
+		return "no package", false
+	}
+	// inside the function the pointer itself is only dereferenced (or
+	// captured by the function's own closures), never handed to a callee
+	var cells []ssa.Value
+	cells = append(cells, p)
+	for i := 0; i < len(cells); i++ {
+		refs := cells[i].Referrers()
+		if refs == nil {
+			continue
+		}
+		for _, r := range *refs {
+			switch u := r.(type) {
+			case *ssa.UnOp, *ssa.DebugRef, *ssa.MakeClosure:
+			case *ssa.Store:
+				if u.Val == cells[i] {
+					al, ok := u.Addr.(*ssa.Alloc)
+					if !ok {
+						return "the function stores the pointer somewhere other than a capture cell", false
+					}
+					if i == 0 {
+						cells = append(cells, al)
+					}
+				}
+			default:
+				return "the function hands the pointer to something other than a load or a store", false
+			}
+		}
+	}
+	var fns []*ssa.Function
+	var walk func(f *ssa.Function)
+	walk = func(f *ssa.Function) {
+		fns = append(fns, f)
+		for _, a := range f.AnonFuncs {
+			walk(a)
+		}
+	}
+	for _, m := range pkg.Members {
+		if f, ok := m.(*ssa.Function); ok {
+			walk(f)
+		}
+		if ty, ok := m.(*ssa.Type); ok {
+			for _, tt := range []types.Type{ty.Type(), types.NewPointer(ty.Type())} {
+				ms := pkg.Prog.MethodSets.MethodSet(tt)
+				for i := 0; i < ms.Len(); i++ {
+					if f := pkg.Prog.MethodValue(ms.At(i)); f != nil && f.Pkg == pkg {
+						walk(f)
+					}
+				}
+			}
+		}
+	}
+	seen := map[*ssa.Function]bool{}
+	calls := 0
+	for _, f := range fns {
+		if seen[f] {
+			continue
+		}
+		seen[f] = true
+		for _, b := range f.Blocks {
+			for _, in := range b.Instrs {
+				// any use of fn as a value (closure, method value, go/defer through a value) defeats the check
+				if ci, ok := in.(ssa.CallInstruction); ok && ci.Common().StaticCallee() == fn {
+					calls++
+					a := ci.Common().Args[idx]
+					al, ok := a.(*ssa.Alloc)
+					if !ok {
+						return fmt.Sprintf("call in %s passes something other than the address of a local", f.Name()), false
+					}
+					for _, r := range *al.Referrers() {
+						switch u := r.(type) {
+						case *ssa.Store:
+							if u.Val == al {
+								return fmt.Sprintf("in %s the address of the local is stored somewhere", f.Name()), false
+							}
+						case *ssa.UnOp:
+						case *ssa.DebugRef:
+						case ssa.CallInstruction:
+							if u.Common().StaticCallee() != fn {
+								return fmt.Sprintf("in %s the local is also passed to another function", f.Name()), false
+							}
+							for j, x := range u.Common().Args {
+								if x == al && j != idx {
+									return "the local is passed for another parameter as well", false
+								}
+							}
+						default:
+							return fmt.Sprintf("in %s the address of the local has a use that is not a load, a store or this call", f.Name()), false
+						}
+					}
+					continue
+				}
+				var ops [16]*ssa.Value
+				for _, op := range in.Operands(ops[:0]) {
+					if op != nil && *op == ssa.Value(fn) {
+						if ci, ok := in.(ssa.CallInstruction); ok && ci.Common().Value == ssa.Value(fn) {
+							continue
+						}
+						return fmt.Sprintf("%s uses the function as a value", f.Name()), false
+					}
+				}
+			}
+		}
+	}
+	if calls == 0 {
+		return "no call of the function found in its package", false
+	}
+	return fmt.Sprintf("checked at all %d call(s) in the package: the argument is the address of a local that is otherwise only loaded and stored", calls), true
+}
+
+// closureRunsInlineOnly: the closure value is used by exactly one defer
+// statement, is translated inline at every function exit that defer reaches
+// (same conditions as in the RunDefers case), and inside its body every
+// captured variable is only loaded from or stored to (never stored as a value
+// or passed on).
+func (t *FnTrans) closureRunsInlineOnly(mc *ssa.MakeClosure) bool {
+	fn, ok := mc.Fn.(*ssa.Function)
+	if !ok || !inlinableClosure(fn) {
+		return false
+	}
+	refs := mc.Referrers()
+	if refs == nil {
+		return false
+	}
+	var d *ssa.Defer
+	for _, r := range *refs {
+		switch u := r.(type) {
+		case *ssa.DebugRef:
+		case *ssa.Defer:
+			if d != nil || u.Common().Value != ssa.Value(mc) || len(u.Common().Args) != 0 {
+				return false
+			}
+			d = u
+		default:
+			return false
+		}
+	}
+	if d == nil {
+		return false
+	}
+	for _, b := range t.fn.Blocks {
+		for _, in := range b.Instrs {
+			if _, ok := in.(*ssa.RunDefers); ok && blockReaches(d.Block(), b) && !d.Block().Dominates(b) {
+				return false
+			}
+		}
+	}
+	for _, fv := range fn.FreeVars {
+		if fv.Referrers() == nil {
+			continue
+		}
+		for _, r := range *fv.Referrers() {
+			switch u := r.(type) {
+			case *ssa.UnOp, *ssa.DebugRef:
+			case *ssa.Store:
+				if u.Val == ssa.Value(fv) {
+					return false
+				}
+			default:
+				return false
+			}
+		}
+	}
+	return true
+}
+
+// isCellType: a type whose variables are neither structs nor arrays (so a
+// pointer to one is never also a pointer to a field or element at offset 0 of
+// a variable of another type).
+func isCellType(ty types.Type) bool {
+	switch ty.Underlying().(type) {
+	case *types.Struct, *types.Array, *types.Interface:
+		return false
+	}
+	return true
 }
